@@ -5,7 +5,7 @@
 cd "$(dirname "$0")/.." || exit 2
 PAT="${1:-*}"; PAR="${VERIF_PAR:-5}"
 mkdir -p .work/reconfirm
-ls -d seeded/$PAT/ 2>/dev/null | sed 's#seeded/##; s#/##' | sed 's/_.*//' | sort -u > .work/reconfirm/props.txt
+ls -d seeded/$PAT/ 2>/dev/null | sed 's#seeded/##; s#/##' | sed 's/_.*//' | sort -u > .work/reconfirm/props.txt ; for s in $VERIF_SKIP; do sed -i "/^$s$/d" .work/reconfirm/props.txt; done
 one_prop() {
   id="$1"
   for d in seeded/${id}_*/ seeded/${id}/; do
